@@ -333,7 +333,7 @@ func c06Assembly(c *Ctx) {
 		})
 		var starts []core.Point
 		for e := range gN {
-			starts = append(starts, core.Point{Block: e.From.Succs[e.Succ], Idx: 0})
+			starts = append(starts, core.AfterEdge(e))
 		}
 		questionRestore := func(base string) func(ssa.Instruction) bool {
 			return func(in ssa.Instruction) bool {
@@ -432,7 +432,7 @@ func c06Table(c *Ctx) {
 		})
 		var starts []core.Point
 		for e := range g {
-			starts = append(starts, core.Point{Block: e.From.Succs[e.Succ], Idx: 0})
+			starts = append(starts, core.AfterEdge(e))
 		}
 		isCheckCall := func(in ssa.Instruction) bool {
 			call, ok := in.(*ssa.Call)
